@@ -3,6 +3,7 @@ module verif
 go 1.21
 
 require (
+	github.com/anishathalye/porcupine v1.3.0
 	github.com/brutella/hc v0.0.0
 	golang.org/x/crypto v0.0.0-20201221181555-eec23a3978ad
 )
